@@ -438,6 +438,8 @@ def r3g_buffer_content(ctx):
             n += 1
             terms = db.origins.of_operand(cf, c["args"][sp[0] - 1])
             bad = sorted({t[2] for t in terms if t[0] == "call" and re.search(r"std::fs::(read_to_string|read)$|::read_to_string$", t[2] or "")})
+            # also through Option/Result combinators and their closures (`.ok().or_else(..)`, `unwrap_or_else(..)`)
+            bad = sorted(set(bad) | {x for x in _slice_calls(ctx.bin, cf, c["args"][sp[0] - 1]) if re.search(r"fs::(read_to_string|read)$", x)})
             key = "R3g|%s|content read from disk" % cf.id
             if bad:
                 r.violate(key, "%s passes text read from the filesystem (%s) to the cleaning analysis at %s: an open document's buffer "
@@ -446,4 +448,53 @@ def r3g_buffer_content(ctx):
                 r.ok(sample={"caller": cf.id.split("::")[-1] if "closure" not in cf.id else cf.id.split("::")[-2], "content_from":
                              sorted({(t[2] or "").split("::")[-1] if t[0] == "call" else t[0] for t in terms})[:3]})
     r.floor("call sites of the cleaning analysis", n, 3)
+    return r
+
+
+def _slice_calls(crate, f, op, depth=0, seen=None):
+    """resolved names of all calls in the backward slice of an operand (through every argument and passed closure)"""
+    seen = seen if seen is not None else set()
+    out = set()
+    l = op_local(op)
+    if l is None or (f.id, l) in seen or depth > 25:
+        return out
+    seen.add((f.id, l))
+    for d in f.defs().get(l, []):
+        if d[0] == "call":
+            c = d[2]
+            out.add(c.get("res") or "?")
+            if not (c.get("res_local")):
+                for a in c["args"]:
+                    out |= _slice_calls(crate, f, a, depth + 1, seen)
+                for cid, loc in c.get("clos", []):
+                    cf = crate.fns.get(cid)
+                    if cf is not None:
+                        for _bb, c2 in cf.calls():
+                            out.add(c2.get("res") or "?")
+        elif d[0] == "assign":
+            rv = d[3]
+            for o in ([rv[1]] if rv[0] == "use" else [["cp", rv[2]]] if rv[0] == "ref" else rv[2] if rv[0] == "agg" else [rv[2]] if rv[0] == "cast" else []):
+                if isinstance(o, list):
+                    out |= _slice_calls(crate, f, o, depth + 1, seen)
+    return out
+
+
+def r3h_wrappers_always_analyse(ctx):
+    r = Result("R3h", "every wrapper of the analysis entry (the public `analyze` entry points) reaches the entry on every path: an "
+                      "early return (e.g. 'text unchanged') skips a re-analysis whose outcome also depends on other files")
+    ei = _entry(ctx)
+    if ei.entry is None:
+        r.anchor_missing("analysis entry", "not found")
+        return r
+    E = ei.entry
+    n = 0
+    for cf, bb, c in ei.db.origins.callers.get(E.id, []):
+        n += 1
+        pdom = cf.postdominators()
+        key = "R3h|%s" % cf.id
+        if bb in pdom.get(0, set()):
+            r.ok(sample={"wrapper": cf.id.split("::")[-1], "always_analyses": True})
+        else:
+            r.violate(key, "%s can return without calling the analysis entry" % cf.id)
+    r.floor("wrappers of the analysis entry", n, 2)
     return r
